@@ -380,7 +380,6 @@ func agrees(o observed, d decision, s string, a absString, strict bool) (bool, s
 }
 
 const keyV1Len20 = "decode:v1-program20-returned-as-v0-p2wpkh"
-const keyHrpOne = "hrp:one-character-prefix-never-decoded"
 const keyHrpUpper = "hrp:upper-case-registration-never-matched"
 const keyB58SegPrefix = "decode:base58-address-starting-like-a-segwit-prefix-rejected"
 
@@ -411,11 +410,8 @@ func (t *tables) checkDecode(c *vrun.Ctx, s, dn, shape, what string, replay any)
 			c.Violation(keyB58SegPrefix, fmt.Sprintf("DecodeAddress(%q, %s): %s (a valid Base58Check %s address whose text begins with the registered segwit prefix %q followed by its only later '1' is handed to the bech32 decoder and refused)",
 				s, dn, why, d.Kind, s[:strings.LastIndexByte(s, '1')]), rp)
 		} else if okImpl && a.form == "bech" && d.Accept && !impl.Accept && !t.w.implDecodable[a.bech.Hrp] {
-			key, how := keyHrpUpper, "is registered in upper case: chaincfg.Register stores the text as given, IsBech32SegwitPrefix lower-cases the query only"
-			if len(a.bech.Hrp) == 1 {
-				key, how = keyHrpOne, "has one character: DecodeAddress wants the last '1' at an index above 1"
-			}
-			c.Violation(key, fmt.Sprintf("DecodeAddress(%q, %s): %s (the prefix %q of a registered network %s, so its own segwit addresses are never taken for segwit addresses)", s, dn, why, a.bech.Hrp, how), rp)
+			how := "is registered in upper case: chaincfg.Register stores the text as given, IsBech32SegwitPrefix lower-cases the query only"
+			c.Violation(keyHrpUpper, fmt.Sprintf("DecodeAddress(%q, %s): %s (the prefix %q of a registered network %s, so its own segwit addresses are never taken for segwit addresses)", s, dn, why, a.bech.Hrp, how), rp)
 		} else if okImpl && a.form == "bech" && a.bech.Ver == 1 && d.String() != impl.String() {
 			c.Violation(keyV1Len20, fmt.Sprintf("DecodeAddress(%q): %s (bech32m string of a witness v1 program of 20 bytes comes back as a v0 P2WPKH address, which encodes to a different string and pays to a different script)", s, why), rp)
 		} else {
